@@ -191,6 +191,35 @@ CLAIMS = {
              "the reachable hyper-parameter space, architecture equality up "
              "to filter scaling.",
         ref="DESIGN.md section 3 C20"),
+    "C12": dict(
+        technique="partial evaluation of model_quantize on synthetic JSON "
+                  "model dictionaries with tagged quantizer strings; "
+                  "class-model lookup of constructor parameters",
+        text="The whole rewriting loop is interpreted on model dictionaries "
+             "covering every layer class it knows; the rewritten dictionary "
+             "must carry exactly the configured quantizers (name over class, "
+             "None for biasless), leave unselected layers and the caller's "
+             "dictionaries untouched, add only keys the target Q class "
+             "accepts, never raise on a selected layer, and transfer weights "
+             "position by position.",
+        note="Trusted: Keras to_json/model_from_json (stubbed) - topology, "
+             "shapes and hyper-parameters of the rebuilt model are whatever "
+             "the JSON says.",
+        ref="DESIGN.md section 3 C12"),
+    "C13": dict(
+        technique="interpretation of the custom-object table; class-model "
+                  "comparison of constructor parameters, super().__init__ "
+                  "keywords and get_config keys; interpreted reload routes",
+        text="Every exported layer/constraint/initializer and registered "
+             "quantizer is in the custom-object table under its own name; "
+             "every constructor option of a table layer is forwarded or "
+             "serialised and every emitted key is accepted; quantizers are "
+             "serialised from the applied *_internal objects; the three "
+             "reload routes hand the Keras loader a private, completed copy "
+             "of custom_objects.",
+        note="Trusted: Keras deserialisation through custom_objects. Not "
+             "decided: bit-identical predictions, HDF5 I/O.",
+        ref="DESIGN.md section 3 C13"),
 }
 
 PENDING = "rules for this property are not built yet in this revision of /verif"
